@@ -143,6 +143,13 @@ func gGenBlock(tag string, nfacts, ruleMode, checkMode int) gBlock {
 	for i := 0; i < nfacts; i++ {
 		b.facts = append(b.facts, gConstAtom(tag+".f"))
 	}
+	if tag == "auth" {
+		// padding: concrete authority facts of an unrelated predicate. They change nothing in the
+		// specified outcome but move the sizes (and spare capacities) of the evaluator's fact storage.
+		for i := 0; i < vParamOpt("authPad"); i++ {
+			b.facts = append(b.facts, gAtom{name: "pad", c: int64(i)})
+		}
+	}
 	if r, ok := gGenRule(tag+".r", ruleMode); ok {
 		b.rules = append(b.rules, r)
 	}
